@@ -95,7 +95,7 @@ def run(selected=None, props=None, workers=6, slot_base=''):
 def for_property(pid, workers=6):
     """kill report of the mutants that are expected to make `pid` fire"""
     exp = expectations()
-    sel = [n for n, e in exp.items() if pid in e.get("fires", [])]
+    sel = [n for n, e in exp.items() if pid in e.get("fires", []) and not e.get("false_alarm")]
     neutral = [n for n, e in exp.items() if not e.get("fires") and n.startswith("neutral_")]
     if not sel and not neutral:
         return {"mutants": 0, "killed": 0, "missed": [], "skipped": []}
